@@ -41,7 +41,7 @@ theorem C02_step_refines (rank : α → α → Rank) (h : TotalPreorder rank) (s
     SetM.allowed rank s op (SetM.step rank s op) = true := by
   cases op with
   | addValue v =>
-    simp only [SetM.allowed, SetM.step, member_eq_mem]
+    simp only [SetM.allowed, SetM.allowed2, SetM.step, SetM.step2, member_eq_mem]
     obtain ⟨h1, h2⟩ := addValue_spec rank h s v hs
     by_cases hm : mem rank s v = true
     · simp [hm, h1 hm, obsR, SeqSpec.isRet]
@@ -53,22 +53,22 @@ theorem C02_step_refines (rank : α → α → Rank) (h : TotalPreorder rank) (s
       simp [hm, he, obsR, retWhere, (strictAsc_iff rank _).mpr hso, List.isPerm_iff.mpr hp]
   | addValues vs =>
     obtain ⟨r, hr, sp⟩ := addValues_spec rank h vs s hs
-    simp only [SetM.allowed, SetM.step, hr, obsR, retWhere, member_eq_mem]
+    simp only [SetM.allowed, SetM.allowed2, SetM.step, SetM.step2, hr, obsR, retWhere, member_eq_mem]
     simp only [beq_self_eq_true, Bool.true_and, Bool.and_eq_true, List.all_eq_true, Bool.or_eq_true,
       List.contains_iff_mem]
     exact ⟨⟨⟨(strictAsc_iff rank r).mpr sp.sorted, sp.sub⟩, sp.keeps⟩, sp.covers⟩
-  | removeValue v => simp [SetM.allowed, SetM.step, removeValue_spec rank h s v hs, obsR, SeqSpec.isRet]
-  | removeValues vs => simp [SetM.allowed, SetM.step, removeValues_spec rank h vs s hs, obsR, SeqSpec.isRet]
-  | removeAll => simp [SetM.allowed, SetM.step, SeqSpec.isRet]
+  | removeValue v => simp [SetM.allowed, SetM.allowed2, SetM.step, SetM.step2, removeValue_spec rank h s v hs, obsR, SeqSpec.isRet]
+  | removeValues vs => simp [SetM.allowed, SetM.allowed2, SetM.step, SetM.step2, removeValues_spec rank h vs s hs, obsR, SeqSpec.isRet]
+  | removeAll => simp [SetM.allowed, SetM.allowed2, SetM.step, SetM.step2, SeqSpec.isRet]
   | containsValue v =>
-    simp [SetM.allowed, SetM.step, containsValue_spec rank h s v hs, obsB, SeqSpec.isRet, member_eq_mem]
+    simp [SetM.allowed, SetM.allowed2, SetM.step, SetM.step2, containsValue_spec rank h s v hs, obsB, SeqSpec.isRet, member_eq_mem]
   | containsAny vs =>
-    simp [SetM.allowed, SetM.step, containsAny_spec rank h s hs vs, obsB, SeqSpec.isRet, member_eq_mem]
+    simp [SetM.allowed, SetM.allowed2, SetM.step, SetM.step2, containsAny_spec rank h s hs vs, obsB, SeqSpec.isRet, member_eq_mem]
   | containsAll vs =>
-    simp [SetM.allowed, SetM.step, containsAll_spec rank h s hs vs, obsB, SeqSpec.isRet, member_eq_mem]
+    simp [SetM.allowed, SetM.allowed2, SetM.step, SetM.step2, containsAll_spec rank h s hs vs, obsB, SeqSpec.isRet, member_eq_mem]
   | getIndex v =>
     obtain ⟨k, hk, ht, hf⟩ := getIndex_spec rank h s v hs
-    simp only [SetM.allowed, SetM.step, hk, member_eq_mem]
+    simp only [SetM.allowed, SetM.allowed2, SetM.step, SetM.step2, hk, member_eq_mem]
     by_cases hm : mem rank s v = true
     · obtain ⟨a1, a2, a3⟩ := ht hm
       have hlt : k - 1 < s.length := by omega
@@ -81,13 +81,13 @@ theorem C02_step_refines (rank : α → α → Rank) (h : TotalPreorder rank) (s
     exact C01_step_refines (fun a b => a == b) rank h s (.getValue i) trivial
   | getValues f l =>
     exact C01_step_refines (fun a b => a == b) rank h s (.getValues f l) trivial
-  | asArray => simp [SetM.allowed, SetM.step, SeqSpec.isRet, (strictAsc_iff rank s).mpr hs]
-  | iterate => simp [SetM.allowed, SetM.step, SeqSpec.isRet, (strictAsc_iff rank s).mpr hs]
-  | getSize => simp [SetM.allowed, SetM.step, SeqSpec.isRet]
-  | isEmpty => simp [SetM.allowed, SetM.step, SeqSpec.isRet]
+  | asArray => simp [SetM.allowed, SetM.allowed2, SetM.step, SetM.step2, SeqSpec.isRet, (strictAsc_iff rank s).mpr hs]
+  | iterate => simp [SetM.allowed, SetM.allowed2, SetM.step, SetM.step2, SeqSpec.isRet, (strictAsc_iff rank s).mpr hs]
+  | getSize => simp [SetM.allowed, SetM.allowed2, SetM.step, SetM.step2, SeqSpec.isRet]
+  | isEmpty => simp [SetM.allowed, SetM.allowed2, SetM.step, SetM.step2, SeqSpec.isRet]
   | make vs =>
     obtain ⟨r, hr, sp⟩ := addValues_spec rank h vs [] (ssorted_nil rank)
-    simp only [SetM.allowed, SetM.step, makeFrom, hr, obsR, retWhere, member_eq_mem]
+    simp only [SetM.allowed, SetM.allowed2, SetM.step, SetM.step2, makeFrom, hr, obsR, retWhere, member_eq_mem]
     simp only [beq_self_eq_true, Bool.true_and, Bool.and_eq_true, List.all_eq_true, List.contains_iff_mem]
     refine ⟨⟨(strictAsc_iff rank r).mpr sp.sorted, ?_⟩, sp.covers⟩
     intro x hx
@@ -113,34 +113,34 @@ theorem C02_step_sorted (rank : α → α → Rank) (h : TotalPreorder rank) (s 
   cases op with
   | addValue v =>
     obtain ⟨l', ha, hs', _⟩ := addValue_cases rank h s v hs
-    simpa [SetM.step, ha, obsR, SetM.stateAfter] using hs'
+    simpa [SetM.step, SetM.step2, ha, obsR, SetM.stateAfter] using hs'
   | addValues vs =>
     obtain ⟨r, hr, sp⟩ := addValues_spec rank h vs s hs
-    simpa [SetM.step, hr, obsR, SetM.stateAfter] using sp.sorted
+    simpa [SetM.step, SetM.step2, hr, obsR, SetM.stateAfter] using sp.sorted
   | removeValue v =>
-    simpa [SetM.step, removeValue_spec rank h s v hs, obsR, SetM.stateAfter] using ssorted_filter s _ hs
+    simpa [SetM.step, SetM.step2, removeValue_spec rank h s v hs, obsR, SetM.stateAfter] using ssorted_filter s _ hs
   | removeValues vs =>
-    simpa [SetM.step, removeValues_spec rank h vs s hs, obsR, SetM.stateAfter] using ssorted_filter s _ hs
-  | removeAll => simpa [SetM.step, SetM.stateAfter] using ssorted_nil rank
-  | containsValue v => simpa [SetM.step, containsValue_spec rank h s v hs, obsB, SetM.stateAfter] using hs
-  | containsAny vs => simpa [SetM.step, containsAny_spec rank h s hs vs, obsB, SetM.stateAfter] using hs
-  | containsAll vs => simpa [SetM.step, containsAll_spec rank h s hs vs, obsB, SetM.stateAfter] using hs
+    simpa [SetM.step, SetM.step2, removeValues_spec rank h vs s hs, obsR, SetM.stateAfter] using ssorted_filter s _ hs
+  | removeAll => simpa [SetM.step, SetM.step2, SetM.stateAfter] using ssorted_nil rank
+  | containsValue v => simpa [SetM.step, SetM.step2, containsValue_spec rank h s v hs, obsB, SetM.stateAfter] using hs
+  | containsAny vs => simpa [SetM.step, SetM.step2, containsAny_spec rank h s hs vs, obsB, SetM.stateAfter] using hs
+  | containsAll vs => simpa [SetM.step, SetM.step2, containsAll_spec rank h s hs vs, obsB, SetM.stateAfter] using hs
   | getIndex v =>
     obtain ⟨k, hk, _, _⟩ := getIndex_spec rank h s v hs
-    simpa [SetM.step, hk, SetM.stateAfter] using hs
+    simpa [SetM.step, SetM.step2, hk, SetM.stateAfter] using hs
   | getValue i =>
-    simp only [SetM.step, Seq.step]
+    simp only [SetM.step, SetM.step2, Seq.step]
     cases Seq.getValue s i <;> simpa [SetM.stateAfter] using hs
   | getValues f l =>
-    simp only [SetM.step, Seq.step]
+    simp only [SetM.step, SetM.step2, Seq.step]
     cases Seq.getValues s f l <;> simpa [SetM.stateAfter] using hs
-  | asArray => simpa [SetM.step, SetM.stateAfter] using hs
-  | iterate => simpa [SetM.step, SetM.stateAfter] using hs
-  | getSize => simpa [SetM.step, SetM.stateAfter] using hs
-  | isEmpty => simpa [SetM.step, SetM.stateAfter] using hs
+  | asArray => simpa [SetM.step, SetM.step2, SetM.stateAfter] using hs
+  | iterate => simpa [SetM.step, SetM.step2, SetM.stateAfter] using hs
+  | getSize => simpa [SetM.step, SetM.step2, SetM.stateAfter] using hs
+  | isEmpty => simpa [SetM.step, SetM.step2, SetM.stateAfter] using hs
   | make vs =>
     obtain ⟨r, hr, sp⟩ := addValues_spec rank h vs [] (ssorted_nil rank)
-    simpa [SetM.step, makeFrom, hr, obsR, SetM.stateAfter] using sp.sorted
+    simpa [SetM.step, SetM.step2, makeFrom, hr, obsR, SetM.stateAfter] using sp.sorted
   | setAnd a b => simp [SetM.Op.basic] at hb
   | setOr a b => simp [SetM.Op.basic] at hb
   | setSans a b => simp [SetM.Op.basic] at hb
